@@ -75,7 +75,7 @@ func DecodeSsixSR(hdr BoxHeader, startPos uint64, sr bits.SliceReader) (Box, err
 	}
 	subSegmentCount := sr.ReadUint32()
 	sizeLeft := hdr.Size - 16
-	if subSegmentCount > uint32(sizeLeft/8) {
+	if subSegmentCount > uint32(sizeLeft/4) { // a subsegment occupies at least its 4-byte range count
 		return nil, fmt.Errorf("too many subsegments: %d", subSegmentCount)
 	}
 	b.SubSegments = make([]SubSegment, subSegmentCount)
